@@ -315,7 +315,7 @@ impl HipEstimator {
 
 /// Compute 1 / 2^value (inverse power of 2)
 #[inline]
-fn inv_pow2(value: u8) -> f64 {
+pub(super) fn inv_pow2(value: u8) -> f64 {
     if value == 0 {
         1.0
     } else if value <= 63 {
